@@ -95,6 +95,72 @@ def shared_object_threads(chk, nthreads, rounds, seed):
     return failures, events
 
 
+def concurrent_packs(chk, rounds, seed):
+    """two client threads pack the SAME Dask frame into two datasets at the same time, sharing one external temp-dir format with
+    {uuid}: each dataset must equal the one a lone pack produces (the packs must not meet in the scratch area)"""
+    import tempfile
+    import dask
+    import dask.dataframe as dd
+    from spatialpandas.io import read_parquet_dask
+    from .fsrec import RecordingFS
+    df, _ = packfs.make_frame(40, seed + 5)
+
+    def parts_of(path):
+        with dask.config.set(scheduler="synchronous"):
+            f = read_parquet_dask(path)
+            return [[(int(k), int(i)) for k, i in zip(p.index, p["id"])] for p in (f.get_partition(j).compute() for j in range(f.npartitions))]
+
+    jobs = (("one.parq", 3), ("two.parq", 5))
+    ref = {}
+    root0 = tempfile.mkdtemp(prefix="c18cp-", dir=os.environ.get("TMPDIR") or "/var/tmp")
+    try:
+        os.makedirs(os.path.join(root0, "scratch"))
+        with dask.config.set(scheduler="synchronous"):
+            for name, k in jobs:
+                dd.from_pandas(df, npartitions=3).pack_partitions_to_parquet(os.path.join(root0, name), npartitions=k, p=8, _retry_args=packfs.RETRY,
+                                                                             tempdir_format=os.path.join(root0, "scratch", "t-{uuid}-{partition}"))
+                ref[name] = parts_of(os.path.join(root0, name))
+    finally:
+        shutil.rmtree(root0, ignore_errors=True)
+    for rd in range(rounds):
+        root = tempfile.mkdtemp(prefix="c18cp-", dir=os.environ.get("TMPDIR") or "/var/tmp")
+        os.makedirs(os.path.join(root, "scratch"))
+        ddf = dd.from_pandas(df, npartitions=3)
+        out = {}
+        barrier = threading.Barrier(2)
+
+        def client(name, k, rd=rd, root=root, ddf=ddf, out=out, barrier=barrier):
+            fs = RecordingFS(root, delays=0.003, seed=seed * 10 + rd)
+            barrier.wait()
+            try:
+                ddf.pack_partitions_to_parquet(os.path.join(root, name), filesystem=fs, npartitions=k, p=8, _retry_args=packfs.RETRY,
+                                               tempdir_format=os.path.join(root, "scratch", "t-{uuid}-{partition}"))
+                out[name] = "returned"
+            except Exception as ex:  # noqa: BLE001
+                out[name] = f"raised {type(ex).__name__}: {ex}"[:300]
+        try:
+            with dask.config.set(scheduler="synchronous"):
+                ths = [threading.Thread(target=client, args=j) for j in jobs]
+                for t in ths:
+                    t.start()
+                for t in ths:
+                    t.join()
+            chk.count(2)
+            for name, k in jobs:
+                got = parts_of(os.path.join(root, name)) if out.get(name) == "returned" else out.get(name)
+                if got != ref[name]:
+                    chk.violation(f"concurrent-packs|{name}", f"two client threads packing the same frame at the same time (shared external temp-dir format with {{uuid}}): dataset {name} "
+                                  f"({k} partitions) is not what a lone pack produces: {str(got)[:400]}", "", ctx=dict(site="pack_partitions_to_parquet", mode="concurrent-packs"))
+                    return
+                chk.nontrivial_case(hash(("concurrent-packs", rd, name)))
+            left = os.listdir(os.path.join(root, "scratch"))
+            if left:
+                chk.violation("concurrent-packs|leftover", f"concurrent packs left temporary entries {left[:5]}", "", ctx=dict(site="pack_partitions_to_parquet", mode="concurrent-leftover"))
+                return
+        finally:
+            shutil.rmtree(root, ignore_errors=True)
+
+
 def run(tier: str, seed: int) -> int:
     chk = Check("C18", tier, seed)
     quick = tier == "quick"
@@ -180,6 +246,7 @@ def run(tier: str, seed: int) -> int:
                           ctx=dict(site="pack_partitions_to_parquet", mode=v))
         else:
             chk.nontrivial_case(hash((r.cfg.key(), len(r.events), id(r))))
+    concurrent_packs(chk, 3 if quick else 12, seed)
     # (d) collect the differential matrix
     digests = {}
     for key, p in procs:
